@@ -156,6 +156,7 @@ type Sim struct {
 	failed    atomic.Bool
 	stopped   atomic.Bool
 	bypass    atomic.Int32
+	teardown  atomic.Bool
 	actions   []*Action
 	invariant func() // called after every quiescence
 
@@ -391,8 +392,16 @@ type enabledEv struct {
 	a    *Action
 }
 
+// Teardown freezes the trace hash: what follows is the scenario's own
+// clean-up (closing clients and servers with cancelled contexts), in which
+// several selects of the code under test have more than one ready case and
+// the Go runtime, not the scheduler, picks one. Verdicts are final by then.
+func (s *Sim) Teardown() { s.teardown.Store(true) }
+
 func (s *Sim) tracef(format string, args ...any) {
-	fmt.Fprintf(s.trace, format, args...)
+	if !s.teardown.Load() {
+		fmt.Fprintf(s.trace, format, args...)
+	}
 	if s.traceOn {
 		fmt.Fprintf(os.Stderr, "T %6d %12v "+format+"\n", append([]any{s.steps, s.Now()}, args...)...)
 	}
